@@ -199,6 +199,69 @@ def c_mixed_sizes(rng, n):
         lines += [f'iter {t}', f'riter {s2}']
     return lines
 
+SRC_PREPS = ('fresh', 'resize', 'rem', 'remroot', 'set1', 'new1', 'downto1', 'update1')
+DST_PREPS = ('fresh', 'full', 'cleared', 'one', 'drained')
+
+def c_assign_edge(rng, kt, ks, n):
+    """assign / copy whose SOURCE holds no binding at that moment (fresh tree, tree after resize(t, 0), tree drained by rem or
+    by root removals) or exactly one (set once, constructed with one pair, drained down to one, one key updated repeatedly),
+    into targets that are fresh, full, cleared, singleton or drained — target of kind `kt`, source of kind `ks` (the layouts
+    differ when kt != ks: the target takes over the types). Each is followed by USE of the target: len, iteration both ways,
+    get / mem of the keys it held before and of the source's keys, a full check, set of a new key, rem, KeyError, root
+    removal, then a change of the source (the target must not follow) and an assign / copy back."""
+    L = []
+    kS = kindkey(ks)
+    def newtree(t, kind, items):
+        L.append(f'new {t} {kind}' + ''.join(f' {kindkey(kind)(i)} {val(kind, v)}' for i, v in items))
+    combos = [(p, d, o) for p in SRC_PREPS for d in DST_PREPS for o in ('assign', 'copy')]
+    rng.shuffle(combos)
+    for p, d, o in combos[:n]:
+        L.append(f'# source {p}, target {d}, {o}')
+        tk = rng.sample(range(40), rng.randrange(2, 9))
+        if d == 'fresh': newtree(0, kt, [])
+        elif d == 'full': newtree(0, kt, [(i, i) for i in tk])
+        elif d == 'one': newtree(0, kt, [(tk[0], 5)])
+        elif d == 'cleared': newtree(0, kt, [(i, i) for i in tk]); L.append('resize 0 0')
+        else:
+            newtree(0, kt, [(i, i) for i in tk])
+            for i in tk: L.append(f'rem 0 {kindkey(kt)(i)}')
+        sk = rng.sample(range(40), rng.randrange(2, 7)); one = sk[0]; have = {}
+        if p == 'fresh': newtree(1, ks, [])
+        elif p == 'resize': newtree(1, ks, [(i, -i) for i in sk]); L.append('resize 1 0')
+        elif p == 'rem':
+            newtree(1, ks, [(i, -i) for i in sk])
+            for i in rng.sample(sk, len(sk)): L.append(f'rem 1 {kS(i)}')
+        elif p == 'remroot':
+            newtree(1, ks, [(i, -i) for i in sk])
+            L.extend(['remroot 1'] * len(sk))
+        elif p == 'set1': newtree(1, ks, []); L.append(f'set 1 {kS(one)} {val(ks, 7)}'); have = {one: 7}
+        elif p == 'new1': newtree(1, ks, [(one, 7)]); have = {one: 7}
+        elif p == 'downto1':
+            newtree(1, ks, [(i, -i) for i in sk])
+            for i in rng.sample(sk[1:], len(sk) - 1): L.append(f'rem 1 {kS(i)}')
+            have = {one: -one}
+        else:
+            newtree(1, ks, [(one, 1)])
+            for v in (2, 3): L.append(f'set 1 {kS(one)} {val(ks, v)}')
+            have = {one: 3}
+        L.append('check 1')
+        L.append(f'{o} 0 1')
+        # use of the target (it has the kind of the source now)
+        L += ['len 0', 'iter 0', 'riter 0', 'check 0']
+        for i in tk[:3] + sk[:3]: L += [f'mem 0 {kS(i)}', f'get 0 {kS(i)}']
+        fresh = rng.choice([i for i in range(40, 60)])
+        L += [f'set 0 {kS(fresh)} {val(ks, 11)}', f'get 0 {kS(fresh)}', 'len 0', 'iter 0', 'riter 0', 'check 0']
+        # the source changes: the target does not follow
+        other = rng.choice([i for i in range(60, 80)])
+        L += [f'set 1 {kS(other)} {val(ks, 13)}', f'mem 0 {kS(other)}', 'check 0', 'check 1', 'len 1']
+        L += [f'set 0 {kS(fresh + 20)} {val(ks, 12)}', f'set 0 {kS(fresh - 20)} {val(ks, 14)}', 'check 0']
+        L += [f'rem 0 {kS(fresh)}', f'rem 0 {kS(fresh)}', 'remroot 0', 'check 0', 'iter 0']
+        # and back / onwards
+        back = rng.choice(['assign 1 0', 'copy 2 0', 'copy 1 0', 'assign 0 1'])
+        L += [back, 'check 0', 'check 1', 'resize 0 0', 'assign 1 0', 'check 1', 'len 1', 'iter 1',
+              f'set 1 {kS(3)} {val(ks, 3)}', 'check 1']
+    return L
+
 def c_relocate(rng, kind, n):
     """removals that relocate the predecessor (node with two children), each followed by reads of every remaining key,
     by updates in place, and by copies of the tree that has just been through the relocation"""
@@ -255,7 +318,7 @@ def c_big(rng, strkeys, n, nops):
 
 class C03(Spec):
     id = 'C03'; engine = 'tree'; harness = 'h_tree'; driver = 'drv_tree'
-    generators = ()
+    generators = ('Tree',)
     harness_timeout = 150
     technique = ('Lean 4 proof: zipper model of the red-black code of src/Tree.c refines a strictly sorted association list and '
                  'preserves the red-black invariants (induction over histories); model tied to the real Tree.c by a white-box, '
@@ -263,7 +326,9 @@ class C03(Spec):
     level_text = ('Theorems C03_refines_ordered_map / C03_iteration / C03_balanced (lean/CelloProofs/Props/C03.lean): for every history of '
                   'new/set/rem/get/mem/len/resize/assign/copy/iteration over any number of trees and any lawful key comparison, the model of '
                   'Tree.c (zipper mirror of Tree_Set, Tree_Set_Fix, Tree_Rem with its predecessor memcpy as a block move over the node payload, '
-                  'Tree_Rem_Fix, the parent-link iteration walks; keys and values of arbitrary types and widths) never '
+                  'Tree_Rem_Fix, the parent-link iteration walks; keys and values of arbitrary types and widths; '
+                  'offsets and widths of the node payload, the sign tests of the four descent loops and the self-assignment guard are read '
+                  'from the source on every run and constrained by the *_current_source theorems, from which the refinement is proved) never '
                   'dereferences NULL, yields exactly the observations of a strictly sorted association list (KeyError exactly for absent '
                   'keys, forward iteration = the strictly monotone key sequence, backward = its reverse) and keeps every tree a valid '
                   'red-black tree with height <= 2*log2(n+1). The model is tied to the C code by comparing the complete concrete tree '
@@ -280,7 +345,12 @@ class C03(Spec):
             'iter mixes over small and large key universes; remove-root and remove-node-with-two-children chosen white-box (remroot, '
             'rem2; relocation-heavy histories: rem2 / remroot followed by get of the remaining keys, copy and assign of the tree '
             'that has just relocated a predecessor); drain-to-empty-and-refill by rem, by root removal and by resize(t,0); '
-            'assign/copy between trees (also across key types and across layouts: the destination takes over ksize/vsize); every insertion order of n<=6 keys followed by a removal order; large trees (hash dumps). After every mutating op '
+            'assign/copy between trees (also across key types and across layouts: the destination takes over ksize/vsize); '
+            'assign and copy whose source is EMPTY at that moment (fresh, after resize(t,0), drained by rem / by root removals) or holds '
+            'exactly ONE binding, into fresh / full / cleared / singleton / drained targets of the same and of another layout, each '
+            'followed by use of the target (len, iteration both ways, get/mem of its former keys and of the source\'s, set, rem, '
+            'KeyError, root removal) and by a change of the source that the target must not follow (edge_* cases; counters '
+            'assign_copy_from_empty / _from_singleton / assign_across_layouts in the evidence); every insertion order of n<=6 keys followed by a removal order; large trees (hash dumps). After every mutating op '
             'the whole concrete tree is dumped and compared with the model, and the C oracle checks map contents, KeyError, iteration '
             'both ways, order, root colour, red-red, black heights, parent links, node count and the height bound. '
             'non-trivial item = a successful set or rem whose resulting tree holds >= 2 bindings (so that a fix-up, a rotation or a '
@@ -292,9 +362,14 @@ class C03(Spec):
                     'Int_Cmp / strcmp behave as the lawful total orders `compare` on Int / String (property C09)',
                     'destruct / free of keys and values is checked by ASan only (C05); the predecessor memcpy of Tree_Rem is modelled '
                     '(relocate: block move of header+key+header+value words with the widths from the Tree) and compared word by word',
-                    'the node layout (3 link words, sizeof(struct Header), Tree_Key / Tree_Val offsets, width of the moved block) is '
-                    'written by hand in the model (Lay, entryWords, relocate): no translator generator extracts it from Tree.c; it is '
-                    'tied to the code by the differential check on layouts with ksize != vsize')
+                    'translate/g_tree.py (regular expressions and a small statement splitter over src/Tree.c, no C parser): it reads '
+                    'the link-word indices, every payload-start `K * sizeof(var)`, the offset / width sums of Tree_Alloc, Tree_Key, '
+                    'Tree_Val and of the memcpy of Tree_Rem, sizeof(struct Header) in words, the argument order and sign tests of the '
+                    'four descent loops and the guards of Tree_Assign as DATA (CelloGen/Tree.lean) which the model evaluates and the '
+                    'theorems C03_layout_current_source / C03_descent_current_source / C03_assign_current_source constrain; the control '
+                    'flow of Tree_Set_Fix / Tree_Rem_Fix (per case: condition chain and actions) and of the other mirrored functions is '
+                    'compared as normalised TEXT with the text the model was written against (C03_source_as_modelled), i.e. the step '
+                    'from that text to the zipper functions is by hand and validated by the differential check')
     assumptions = ('keys are Int, ASCII Strings without blanks or a 24-byte plain struct with a lexicographic Cmp instance; values are '
                    'Int or 24- / 40-byte plain structs; one key type and one value type per tree at a time; set is only given keys '
                    'and values of the tree\'s types (cast raises otherwise: hypothesis WellTyped of the theorems)',
@@ -334,6 +409,11 @@ class C03(Spec):
                     add('ne_seq_' + kind + '_', c_sequential(rng, kind, rng.choice([17, 33] if quick else [64, 150, 300]),
                                                              rng.choice(['asc', 'desc', 'alt'])))
             add('ne_mixed', c_mixed_sizes(rng, 10 if quick else 40))
+            # assign / copy from empty and singleton sources, within one layout and across layouts
+            allk = KINDS_EQ + KINDS_NE
+            for kt, ks_ in [('i', 'i'), ('s', 's'), (rng.choice(KINDS_NE), rng.choice(KINDS_NE)),
+                            (rng.choice(allk), rng.choice(allk)), ('i', rng.choice(KINDS_NE)), (rng.choice(KINDS_NE), 's')]:
+                add('edge_' + kt + '_' + ks_ + '_', c_assign_edge(rng, kt, ks_, 10 if quick else 80))
         # exhaustive insertion orders
         import math
         allkinds = KINDS_EQ + KINDS_NE
